@@ -40,7 +40,11 @@ void ti_pwrite(TImpl* t, u32 a, u16 v) { t->memory_interface.ProgramWrite(a, v);
 void ti_timer_poke(TImpl* t, u16 mode, u32 counter) {
     t->timer[0].count_mode = (Timer::CountMode)mode; t->timer[0].update_mmio = 1; t->timer[0].pause = 0; t->timer[0].counter = counter; t->timer[1].pause = 1;
 }
+void ti_timer1_poke(TImpl* t, u16 mode, u32 counter, u16 start_low) {
+    t->timer[1].count_mode = (Timer::CountMode)mode; t->timer[1].update_mmio = 1; t->timer[1].pause = 0; t->timer[1].counter = counter; t->timer[1].start_low = start_low; t->timer[1].start_high = 0;
+}
 u32 ti_timer_counter(TImpl* t) { return t->timer[0].counter; }
+u32 ti_timer1_counter(TImpl* t) { return t->timer[1].counter; }
 void ti_tick(TImpl* t) { t->core_timing.Tick(); }
 u64 ti_skip(TImpl* t, u64 n) { return t->core_timing.Skip(n); }
 void ti_call_handler(std::function<void()>* f) { (*f)(); }
